@@ -14,7 +14,7 @@ func init() { Registry["C15"] = C15 }
 // C15: endpoint × caller × target state on a read-only gateway, with a
 // read-write twin on an identically populated storage for the "reads keep working" half.
 func C15(r *ck.Run) {
-	r.Rule("every endpoint shape of the S3 API table × caller role (root, admin, userplus, owner, policy grantee, ACL grantee) × storage configuration on a gateway started with the read-only switch; mutating endpoints must be refused with the storage byte-identical, non-mutating ones must answer like the read-write twin; distinct = (config, endpoint, caller, path form)")
+	r.Rule("every endpoint shape of the S3 API table × caller role (root, admin, userplus, owner, policy grantee, ACL grantee) × storage configuration on a gateway started with the read-only switch; mutating endpoints must be refused with the storage byte-identical, non-mutating ones must answer like the read-write twin; plus DELETE / tagging changes that name a version id (null, stored versions); distinct = (config, endpoint, caller, path form)")
 	r.Assume("account management through the admin API (PATCH /create-user ...) does not touch what is stored for buckets and is excluded; change-bucket-owner, which is served on the same listener and rewrites a bucket's ACL, is included; a non-mutating request is compared by status, error code and (GetObject) body")
 	cfgs := []gw.Opts{{}, {Versioning: true}}
 	if r.Thorough() {
@@ -139,6 +139,57 @@ func C15(r *ck.Run) {
 						if diff := base.Diff(ro.F.G.Snapshot(gw.SnapOpts{}), 6); len(diff) > 0 {
 							r.Violation(ck.JoinSig("read-of-object-with-expired-retention", rd.m+" "+rd.q, roleOf(c), "state-changed-in-read-only-mode"), map[string]any{"config": fmt.Sprintf("%+v", cfg), "request": req.String(), "response": resp.String(), "state_diff": diff})
 							base = ro.F.G.Snapshot(gw.SnapOpts{})
+						}
+					}
+				}
+			}
+			// requests that name a version: DELETE / tagging / retention changes by version id (the null version, and a
+			// stored version where the gateway keeps versions)
+			if r.Mine(idx + 2) {
+				vids := []string{"null"}
+				if cfg.Versioning {
+					lv := rw.Do(func() *gw.Req {
+						q := NewReq("GET", "/"+ro.LockBkt, "versions", nil, nil)
+						gw.Sign(q, gw.Root, gw.SignOpts{})
+						return q
+					}())
+					vids = append(vids, xmlAll(lv.Body, "VersionId")...)
+				}
+				for _, c := range callers {
+					for _, vid := range vids {
+						for _, t := range []struct {
+							name, method, bucket, key, q string
+							body                         []byte
+						}{
+							{"DeleteObject-by-version", "DELETE", ro.Bucket, ro.Key, "", nil},
+							{"DeleteObject-by-version-lock-bucket", "DELETE", ro.LockBkt, "locked", "", nil},
+							{"PutObjectTagging-by-version", "PUT", ro.Bucket, ro.Key, "tagging", []byte("<Tagging><TagSet><Tag><Key>ro</Key><Value>x</Value></Tag></TagSet></Tagging>")},
+							{"DeleteObjectTagging-by-version", "DELETE", ro.Bucket, ro.Key, "tagging", nil},
+						} {
+							if t.bucket == ro.LockBkt && !cfg.Versioning {
+								continue
+							}
+							q := gw.Q("versionId", vid)
+							if t.q != "" {
+								q = t.q + "&" + q
+							}
+							req := NewReq(t.method, gw.ObjPath(t.bucket, t.key), q, nil, t.body)
+							gw.Sign(req, c, gw.SignOpts{})
+							resp := ro.F.G.Do(req)
+							r.Add("evaluations", 1)
+							r.Distinct(fmt.Sprintf("%d|by-version|%s|%s|%s", ci, t.name, verClass(vid), c.Access))
+							det := map[string]any{"config": fmt.Sprintf("%+v", cfg), "caller": c.Access, "request": req.String(), "response": resp.String()}
+							if diff := base.Diff(ro.F.G.Snapshot(gw.SnapOpts{}), 6); len(diff) > 0 {
+								det["state_diff"] = diff
+								r.Violation(ck.JoinSig(t.name, verClass(vid), roleOf(c), "state-changed-in-read-only-mode"), det)
+								rw.Close()
+								ro.Close()
+								ro = build(true)
+								rw = twin()
+								base = ro.F.G.Snapshot(gw.SnapOpts{})
+							} else if resp.Err != nil || resp.Status < 400 {
+								r.Violation(ck.JoinSig(t.name, verClass(vid), roleOf(c), fmt.Sprintf("mutating-request-answered-%d", resp.Status)), det)
+							}
 						}
 					}
 				}
